@@ -69,6 +69,7 @@ type Tr struct {
 	specErrs  []string
 	topParams map[string]EVal
 	splitCases [][]*Term
+	consts    map[*Term][]constFact
 }
 
 type retInfo struct {
@@ -141,6 +142,92 @@ func (tr *Tr) assume(t *Term, why string) {
 		return
 	}
 	tr.assumes = append(tr.assumes, Assumption{T: t, Why: why})
+	tr.recordConsts(t, tr.f.True())
+}
+
+type constFact struct {
+	c     *Term
+	guard *Term
+}
+
+// recordConsts remembers facts `x == constant` (possibly under a guard) so that lengths promised by callee
+// postconditions can be used as constants by copy/append expansion.
+func (tr *Tr) recordConsts(t *Term, guard *Term) {
+	switch t.Op {
+	case "and":
+		for _, a := range t.Args {
+			tr.recordConsts(a, guard)
+		}
+	case "or":
+		// (or (not g1) (not g2) body): guard g1 && g2
+		var body *Term
+		gs := []*Term{guard}
+		for _, a := range t.Args {
+			if a.Op == "not" {
+				gs = append(gs, a.Args[0])
+			} else if body == nil {
+				body = a
+			} else {
+				return
+			}
+		}
+		if body != nil {
+			tr.recordConsts(body, tr.f.And(gs...))
+		}
+	case "=":
+		a, b := t.Args[0], t.Args[1]
+		if a.Op == "bv" && b.Op != "bv" {
+			a, b = b, a
+		}
+		if b.Op == "bv" && a.Op != "bv" {
+			if tr.consts == nil {
+				tr.consts = map[*Term][]constFact{}
+			}
+			tr.consts[a] = append(tr.consts[a], constFact{b, guard})
+		}
+	}
+}
+
+// constOf returns a constant known to equal t under the current reach condition.
+func (tr *Tr) constOf(t *Term) *Term {
+	if t.Op == "bv" {
+		return t
+	}
+	if len(tr.frames) == 0 {
+		return nil
+	}
+	fr := tr.fr()
+	var reach *Term
+	if fr.cur != nil {
+		reach = fr.reach[fr.cur]
+	}
+	for _, cf := range tr.consts[t] {
+		if cf.guard.IsTrue() || cf.guard == reach {
+			return cf.c
+		}
+		if reach != nil && reach.Op == "and" {
+			need := []*Term{cf.guard}
+			if cf.guard.Op == "and" {
+				need = cf.guard.Args
+			}
+			ok := true
+			for _, n := range need {
+				found := false
+				for _, r := range reach.Args {
+					if r == n {
+						found = true
+					}
+				}
+				if !found && !n.IsTrue() {
+					ok = false
+				}
+			}
+			if ok {
+				return cf.c
+			}
+		}
+	}
+	return nil
 }
 
 // assumeHere adds an assumption guarded by the current reach condition.
